@@ -21,11 +21,12 @@ BitmapFile make_bmp(const Pic& p, bool bottomUp) {
 	return BitmapFile::CreateIndexed(8, 32, bottomUp ? int32_t(p.h) : -int32_t(p.h), pal, px);
 }
 std::vector<uint8_t> bytes_of(Stream::DynamicMemoryWriter& w) { std::vector<uint8_t> out(w.Length()); auto r = w.GetReader(); r.Read(out.data(), out.size()); return out; }
-std::vector<uint8_t> custom_bytes(const BitmapFile& b) { Stream::DynamicMemoryWriter w; Tileset::WriteCustomTileset(w, b); return bytes_of(w); }
+std::vector<uint8_t> custom_bytes(const BitmapFile& b, int overload = -1) { Stream::DynamicMemoryWriter w; if (overload < 0) overload = int(fnv1a(b.pixels.data(), b.pixels.size(), b.palette.size()) & 1); if (overload) Tileset::WriteCustomTileset(std::move(w), b); /* the overload taking an rvalue writer */ else Tileset::WriteCustomTileset(w, b); return bytes_of(w); }
 std::vector<uint8_t> bmp_bytes(const BitmapFile& b) { Stream::DynamicMemoryWriter w; b.WriteIndexed(w); return bytes_of(w); }
 BitmapFile load(const std::vector<uint8_t>& v) {
 	uint8_t* heap = static_cast<uint8_t*>(malloc(v.size() ? v.size() : 1)); struct F { uint8_t* p; ~F() { free(p); } } g{heap};
 	if (!v.empty()) memcpy(heap, v.data(), v.size());
+	if (fnv1a(v.data(), v.size()) & 1) return Tileset::ReadTileset(Stream::MemoryReader(heap, v.size()));   // the overload taking a temporary stream
 	Stream::MemoryReader r(heap, v.size()); return Tileset::ReadTileset(r);
 }
 
@@ -51,6 +52,7 @@ void picture_case(const Pic& p, Stats& st) {
 		BitmapFile keep = src;
 		std::vector<uint8_t> cb = custom_bytes(src);
 		V_CHECK(src == keep, "WriteCustomTileset altered the caller's bitmap");
+		V_CHECK(custom_bytes(src, 0) == cb && custom_bytes(src, 1) == cb, "the two writer overloads of WriteCustomTileset give different bytes for the same picture");
 		if (cb != ref) { size_t at = 0; while (at < cb.size() && at < ref.size() && cb[at] == ref[at]) ++at; V_CHECK(false, "custom tileset bytes from a " << (bu ? "bottom-up" : "top-down") << " source differ from the independent description at offset " << at << " (lengths " << cb.size() << " vs " << ref.size() << ")"); }
 		BitmapFile fromCustom = load(cb);
 		same_picture(fromCustom, p, "loaded from custom format");
@@ -126,7 +128,7 @@ void signature_case(const std::vector<uint8_t>& pre, const std::vector<uint8_t>&
 	uint8_t* heap = static_cast<uint8_t*>(malloc(v.size() ? v.size() : 1)); struct F { uint8_t* p; ~F() { free(p); } } g{heap};
 	if (!v.empty()) memcpy(heap, v.data(), v.size());
 	Stream::MemoryReader r(heap, v.size()); r.Seek(pre.size());
-	bool is = false; Out o = guarded([&] { is = Tileset::PeekIsCustomTileset(r); });
+	bool is = false; Out o = guarded([&] { is = (pre.size() + sig.size()) & 1 ? Tileset::PeekIsCustomTileset(std::move(r)) : Tileset::PeekIsCustomTileset(r); });
 	V_CHECK(r.Position() == pre.size(), "PeekIsCustomTileset moved the stream from " << pre.size() << " to " << r.Position());
 	if (sig.size() + post.size() >= 4) {
 		V_CHECK(o == Out::Ok, "PeekIsCustomTileset threw with 4 bytes available");
@@ -164,6 +166,8 @@ void violating_case(unsigned kind, uint64_t a, Stats& st) {
 	Stream::DynamicMemoryWriter w;
 	V_CHECK(guarded([&] { Tileset::WriteCustomTileset(w, b); }) == Out::Err, "WriteCustomTileset accepted a picture with " << what);
 	V_CHECK(w.Length() == 0, "refused save still wrote " << w.Length() << " bytes");
+	{ Stream::DynamicMemoryWriter w2; V_CHECK(guarded([&] { Tileset::WriteCustomTileset(std::move(w2), b); }) == Out::Err, "WriteCustomTileset (rvalue-writer overload) accepted a picture with " << what); }
+	{ BitmapFile flipped = b; bool ok = guarded([&] { flipped.InvertScanLines(); }) == Out::Ok; if (ok) { Stream::DynamicMemoryWriter w3, w4; V_CHECK(guarded([&] { Tileset::WriteCustomTileset(w3, flipped); }) == Out::Err && guarded([&] { Tileset::WriteCustomTileset(std::move(w4), flipped); }) == Out::Err, "WriteCustomTileset accepted the same violating picture in the other scan-line orientation: " << what); V_CHECK(guarded([&] { load(bmp_bytes(flipped)); }) == Out::Err, "ReadTileset accepted the violating picture in the other orientation: " << what); } }
 	V_CHECK(guarded([&] { load(bmp_bytes(b)); }) == Out::Err, "ReadTileset accepted a standard bitmap with " << what);
 	st.cls(std::string("violating:") + what); st.nt(hmix(kind % 6, a % 70000) ^ 0x71);
 }
